@@ -335,7 +335,7 @@ pub fn property() -> Property {
             SubCheck {
                 name: "sampled-large-shapes",
                 rule: "sampled larger shapes (osu up to 600 objects, taiko up to 600, catch up to 400 fruits+droplets and 400 tiny droplets, mania up to 36 objects + 4 hold notes, 5 categories) x origin x miss count x priority x target accuracy in [0,100]; same brute-force oracle. Non-trivial as in the enumeration stage.",
-                quick: 3000,
+                quick: 20_000,
                 thorough: 40_000,
                 tape_len: 32,
                 f: case_large,
